@@ -339,7 +339,7 @@ def main():
         if v.startswith("error"):
             errors.append(r)
             continue
-        if cfg.get("only_crashes") and not v.startswith("violation crash"):
+        if cfg.get("only_crashes") and not (v.startswith("violation crash") or "uninitialised" in v):
             # C20 judges memory errors / undefined behaviour only; the functional verdict of the case belongs to another property
             continue
         e = match_known(known, prop, r["case"], v)
@@ -356,7 +356,7 @@ def main():
         extra_searched = len(more)
         for r in rs2:
             v = r["verdict"]
-            if cfg.get("only_crashes") and not v.startswith("violation crash"):
+            if cfg.get("only_crashes") and not (v.startswith("violation crash") or "uninitialised" in v):
                 continue
             if not v.startswith("ok") and not v.startswith("error") and not match_known(known, prop, r["case"], v):
                 violations.append(r)
